@@ -1,6 +1,5 @@
 package main
 
-func (cx *Ctx) runC01() { cx.trouble("C01 not implemented yet") }
 func (cx *Ctx) runC15() { cx.trouble("C15 not implemented yet") }
 func (cx *Ctx) runC18() { cx.trouble("C18 not implemented yet") }
 func (cx *Ctx) selftest() int { return 2 }
